@@ -1317,7 +1317,7 @@ def methods(draw, profile=None):
         nph = len(names)
     g.phase_names = names
     # keyword arguments written in reverse name order (f(y=.., t=..)) in the whole method?
-    kw_reverse = bool(p["kwargs"] and p["kw_reverse"] and draw(st.integers(0, 99)) < 35)
+    kw_reverse = bool(p["kwargs"] and p["kw_reverse"] and draw(st.integers(0, 99)) < 50)
     # how the builder is addressed: pymbolic objects, strings, three-argument if_ (see backends.emit_ops)
     surface = draw(st.sampled_from(["expr", "expr", "expr", "str", "str", "if3", "if3str"])) if p["surfaces"] else "expr"
     # persistent variables, fixed up front
